@@ -210,5 +210,58 @@ class GetExposedMembers(Contract):
         env_sets = [st.env[n].ref for n in ("methods", "oneway", "attrs")]
         n = st.get(st.ghost["dir_list"], "n").e
         post = [("the result is {'methods': .., 'oneway': .., 'attrs': ..} over the three computed sets", z3.BoolVal([v.ref for v in disp[0][3].items] == env_sets)),
-                ("what was computed is what gets cached for (class, only_exposed)", z3.BoolVal(len(stored) == 1 and isinstance(stored[0][2], VOpaque) and z3.eq(stored[0][2].e, result.e)))]
+                ("what was computed is what gets cached", z3.BoolVal(len(stored) == 1 and isinstance(stored[0][2], VOpaque) and z3.eq(stored[0][2].e, result.e))),
+                ("... under the key (class, only_exposed)", z3.And(stored[0][1].items[0].e == self.cls.e, stored[0][1].items[1].e)
+                 if len(stored) == 1 and isinstance(stored[0][1], VTuple) and len(stored[0][1].items) == 2 and isinstance(stored[0][1].items[0], VOpaque) and isinstance(stored[0][1].items[1], VBool)
+                 else z3.BoolVal(False))]
         return post + [(lbl.replace("visited so far", "dir(cls) lists"), f) for lbl, f in self.facts(st, n)]
+
+
+# --- dropping a cached member list (Daemon.resetMetadataCache -> _reset_exposed_members) ------------------------------------------------------------------------------
+
+class_of = z3.Function("class_of_instance", U, U)      # obj.__class__ of an instance
+
+
+def _cache_pop(self, E, st, obj, args, kw):
+    st.event("cache_pop", args[0], args[1] if len(args) > 1 else None)
+    return [Res(st, VOpaque(fresh("popped_metadata", U)))]
+
+
+MemberCache.m_pop = _cache_pop
+MemberCache.methods = dict(MemberCache.methods, pop=_cache_pop)
+
+
+@R.contract
+class ResetExposedMembers(Contract):
+    name = "Pyro5.server._reset_exposed_members"
+    props = ("C02",)
+    raises = {}
+    no_join = True
+    log_calls = False
+    variants = ("class", "instance")
+    trusted = ("the cache is a dict keyed by (class, only_exposed); dict.pop(key, None) removes that key if present and never raises",)
+
+    def setup(self, E, st):
+        self.obj = VOpaque(z3.Const("obj", U))
+        st.assume(self.obj.e != U_NONE, is_class(self.obj.e) if self.variant == "class" else z3.Not(is_class(self.obj.e)))
+        return {"obj": self.obj, "only_exposed": VBool(True)}
+
+    def opaque_getattr(self, E, st, x, n, default):
+        sn = z3.simplify(n.e if isinstance(n, VStr) else unbox_str(n.e))
+        if z3.eq(x.e, self.obj.e) and z3.is_string_value(sn) and sn.as_string() == "__class__":
+            c = class_of(x.e)
+            st.assume(is_class(c), c != U_NONE)
+            return [Res(st, VOpaque(c))]
+        return None
+
+    def ensures(self, E, old, st, a, result):
+        pops = [e for e in st.events if e[0] == "cache_pop"]
+        stores = [e for e in st.events if e[0] == "cache_store"]
+        ok = len(pops) == 1 and not stores and isinstance(pops[0][1], VTuple) and len(pops[0][1].items) == 2 and isinstance(pops[0][1].items[0], VOpaque) \
+            and isinstance(pops[0][1].items[1], VBool) and isinstance(pops[0][2], VNone)
+        if not ok:
+            return [("exactly the cache entry of (the object's class, only_exposed) is dropped - the very key _get_exposed_members stores its result under - tolerating its absence", z3.BoolVal(False))]
+        key_cls, key_flag = pops[0][1].items
+        want = self.obj.e if self.variant == "class" else class_of(self.obj.e)
+        return [("exactly the cache entry of (the object's class, only_exposed) is dropped - the very key _get_exposed_members stores its result under - tolerating its absence",
+                 z3.And(key_cls.e == want, key_flag.e))]
